@@ -58,10 +58,11 @@ def run(ctx, b, drv):
             srcs.append(('gen:%s:%d' % (kind, i), code))
         for i in range(ngen):
             srcs.append(('derived:%d' % i, gens.derived(gens.rng(ctx.seed, 'derived-%s-%s' % ('C12', v), i), v)))
-        # the near-miss / invalid / target-shape corpora: every program on every version in the thorough tier, a rotating ninth of them per version otherwise
+        # the near-miss / invalid / target-shape corpora: every program on every version in the thorough tier; in the quick tier the near-miss corpus on every version, a rotating ninth of the others per version
         vi = streams.versions().index(v)
+        nsem = len(gens.SEMANTIC)       # the hand-written near-miss programs (among them the witnesses of the repaired defects) run on every version in every tier
         for ci, code in enumerate(gens.SEMANTIC + gens.INVALID + gens.TARGETS):
-            if ctx.tier != 'quick' or (ci + vi + int(ctx.seed or 0)) % 9 == 0:
+            if ctx.tier != 'quick' or ci < nsem or (ci + vi + int(ctx.seed or 0)) % 9 == 0:
                 srcs.append(('corpus:%d' % ci, code))
         texts = [s for _, s in srcs]
         okv = refpy.run_ref('ref_compile.py', v, texts)
